@@ -1896,11 +1896,23 @@ fn parse_num_radix<const RADIX: u8>(s: &str) -> Result<f64, ParseNumRadixError> 
         number = number * u128::from(RADIX) + u128::from(digit);
     }
 
-    let mut number = number as f64;
+    // Digits beyond 128 bits only matter for rounding: remember whether any of
+    // them is non-zero (sticky bit) so that the conversion rounds correctly.
+    let mut num_extra_digits = 0usize;
+    let mut sticky = false;
     for chr in chars {
-        if chr.to_digit(RADIX.into()).is_none() {
-            return Err(ParseNumRadixError::InvalidDigit(chr));
-        }
+        let digit = chr
+            .to_digit(RADIX.into())
+            .ok_or(ParseNumRadixError::InvalidDigit(chr))?;
+        sticky |= digit != 0;
+        num_extra_digits += 1;
+    }
+    if sticky {
+        number |= 1;
+    }
+
+    let mut number = number as f64;
+    for _ in 0..num_extra_digits {
         number *= f64::from(RADIX);
     }
 
